@@ -265,12 +265,11 @@ def Feasible (s : List Oms) (path : List Nat) (n' m : Int) : Prop :=
   ∀ k ∈ path, ∀ o, s[k]? = some o → o.bm.aggIdxMin ≤ n' - m ∧ n' + m - 1 ≤ o.bm.aggIdxMax ∧
     ∀ x : Int, n' - m ≤ x → x ≤ n' + m - 1 → o.bm.cellAt x = some Cell.free
 
-/-- **first_fit_lowest.** With the first-fit policy a request with one slot and a free N (M fixed or free) is placed
-    at the lowest feasible position: no centre below the granted one is feasible on the route. -/
-theorem first_fit_lowest (s s' : List Oms) (r : Request) (e : Entry) (n m : Int) (hs : StateWF s)
-    (hnd : r.pathOms.Nodup) (he : r.entries = [e]) (hn : e.n = none)
-    (h : step Policy.firstFit s r = .ok (s', Outcome.accepted [(n, m)])) :
-    ∀ n' : Int, n' < n → ¬ Feasible s r.pathOms n' m := by
+/-- a one-entry request with a free N that is accepted got its centre from `spectrum_selection` on the test bitmap -/
+theorem single_free_entry_selection (pol : Policy) (s s' : List Oms) (r : Request) (e : Entry) (n m : Int)
+    (hs : StateWF s) (hnd : r.pathOms.Nodup) (he : r.entries = [e]) (hn : e.n = none)
+    (h : step pol s r = .ok (s', Outcome.accepted [(n, m)])) :
+    ∃ t, aggregate r.pathOms s = .ok t ∧ 0 < m ∧ spectrumSelection t m pol = .ok (some n) := by
   obtain ⟨nbWl, requiredM, pcm, t, sel, _, a1, a2, a3, _, _, _⟩ := step_accepted_spec _ s s' r _ hs hnd h
   obtain ⟨hne, hwf, c1, c2, c3⟩ := aggregate_spec s hs _ t a1
   have hsel : sel = [(n, m)] := (List.Perm.singleton_eq a3).symm
@@ -278,9 +277,8 @@ theorem first_fit_lowest (s s' : List Oms) (r : Request) (e : Entry) (n m : Int)
   rw [he] at a2
   have hord : (orderSlots [e]).map (·.2) = [e] := rfl
   rw [hord] at a2
-  -- unfold the loop on the single entry
   simp only [nmLoop, bind, Except.bind] at a2
-  cases hsl : selectOne t e requiredM pcm Policy.firstFit with
+  cases hsl : selectOne t e requiredM pcm pol with
   | error err => rw [hsl] at a2; cases a2
   | ok v =>
     rw [hsl] at a2
@@ -296,49 +294,71 @@ theorem first_fit_lowest (s s' : List Oms) (r : Request) (e : Entry) (n m : Int)
         have hnm : nm = (n, m) := Prod.ext a2.1.1 a2.1.2
         subst hnm
         obtain ⟨hm, _⟩ := assignSpectrum_ok t t' _ _ hwf has
-        -- the centre comes from spectrum_selection with first fit
-        have hsp : spectrumSelection t m Policy.firstFit = .ok (some n) := by
-          unfold selectOne at hsl
-          rw [hn] at hsl
-          cases hem : e.m with
-          | none =>
-            rw [hem] at hsl
-            simp only at hsl
-            split at hsl
-            · cases hsl
-            · simp only [bind, Except.bind] at hsl
-              cases hd : spectrumSelection t requiredM Policy.firstFit with
-              | error err => rw [hd] at hsl; cases hsl
-              | ok o =>
-                rw [hd] at hsl
-                cases o with
-                | none => cases hsl
-                | some n0 =>
-                  have : n0 = n ∧ requiredM = m := by simpa [pure, Except.pure] using hsl
-                  obtain ⟨rfl, rfl⟩ := this
-                  exact hd
-          | some m0 =>
-            rw [hem] at hsl
-            simp only [bind, Except.bind] at hsl
-            cases hd : spectrumSelection t m0 Policy.firstFit with
+        refine ⟨t, a1, hm, ?_⟩
+        unfold selectOne at hsl
+        rw [hn] at hsl
+        cases hem : e.m with
+        | none =>
+          rw [hem] at hsl
+          simp only at hsl
+          split at hsl
+          · cases hsl
+          · simp only [bind, Except.bind] at hsl
+            cases hd : spectrumSelection t requiredM pol with
             | error err => rw [hd] at hsl; cases hsl
             | ok o =>
               rw [hd] at hsl
               cases o with
               | none => cases hsl
               | some n0 =>
-                have : n0 = n ∧ m0 = m := by simpa [pure, Except.pure] using hsl
+                have : n0 = n ∧ requiredM = m := by simpa [pure, Except.pure] using hsl
                 obtain ⟨rfl, rfl⟩ := this
                 exact hd
-        intro n' hlt hfeas
-        apply spectrumSelection_first t hwf m hm n hsp n' hlt
-        obtain ⟨k, hk⟩ := List.exists_mem_of_ne_nil _ hne
-        obtain ⟨o, ho⟩ := c1 k hk
-        obtain ⟨_, _, e3, e4⟩ := c2 k hk o ho
-        obtain ⟨f1, f2, _⟩ := hfeas k hk o ho
-        refine ⟨by omega, by omega, ?_⟩
-        intro x hx1 hx2
-        exact (c3 x).2 (fun k' hk' o' ho' => (hfeas k' hk' o' ho').2.2 x hx1 hx2)
+        | some m0 =>
+          rw [hem] at hsl
+          simp only [bind, Except.bind] at hsl
+          cases hd : spectrumSelection t m0 pol with
+          | error err => rw [hd] at hsl; cases hsl
+          | ok o =>
+            rw [hd] at hsl
+            cases o with
+            | none => cases hsl
+            | some n0 =>
+              have : n0 = n ∧ m0 = m := by simpa [pure, Except.pure] using hsl
+              obtain ⟨rfl, rfl⟩ := this
+              exact hd
+
+theorem feasible_rangeOK (s : List Oms) (hs : StateWF s) (path : List Nat) (t : Bitmap) (ha : aggregate path s = .ok t)
+    (n' m : Int) (hfeas : Feasible s path n' m) : RangeOK t n' m := by
+  obtain ⟨hne, hwf, c1, c2, c3⟩ := aggregate_spec s hs _ t ha
+  obtain ⟨k, hk⟩ := List.exists_mem_of_ne_nil _ hne
+  obtain ⟨o, ho⟩ := c1 k hk
+  obtain ⟨_, _, e3, e4⟩ := c2 k hk o ho
+  obtain ⟨f1, f2, _⟩ := hfeas k hk o ho
+  refine ⟨by omega, by omega, ?_⟩
+  intro x hx1 hx2
+  exact (c3 x).2 (fun k' hk' o' ho' => (hfeas k' hk' o' ho').2.2 x hx1 hx2)
+
+/-- **first_fit_lowest.** With the first-fit policy a request with one slot and a free N (M fixed or free) is placed
+    at the lowest feasible position: no centre below the granted one is feasible on the route. -/
+theorem first_fit_lowest (s s' : List Oms) (r : Request) (e : Entry) (n m : Int) (hs : StateWF s)
+    (hnd : r.pathOms.Nodup) (he : r.entries = [e]) (hn : e.n = none)
+    (h : step Policy.firstFit s r = .ok (s', Outcome.accepted [(n, m)])) :
+    ∀ n' : Int, n' < n → ¬ Feasible s r.pathOms n' m := by
+  obtain ⟨t, ha, hm, hsp⟩ := single_free_entry_selection _ s s' r e n m hs hnd he hn h
+  obtain ⟨_, hwf, _, _, _⟩ := aggregate_spec s hs _ t ha
+  intro n' hlt hfeas
+  exact spectrumSelection_first t hwf m hm n hsp n' hlt (feasible_rangeOK s hs _ t ha n' m hfeas)
+
+/-- with the last-fit policy the same request is placed at the highest feasible position -/
+theorem last_fit_highest (s s' : List Oms) (r : Request) (e : Entry) (n m : Int) (hs : StateWF s)
+    (hnd : r.pathOms.Nodup) (he : r.entries = [e]) (hn : e.n = none)
+    (h : step Policy.lastFit s r = .ok (s', Outcome.accepted [(n, m)])) :
+    ∀ n' : Int, n < n' → ¬ Feasible s r.pathOms n' m := by
+  obtain ⟨t, ha, hm, hsp⟩ := single_free_entry_selection _ s s' r e n m hs hnd he hn h
+  obtain ⟨_, hwf, _, _, _⟩ := aggregate_spec s hs _ t ha
+  intro n' hlt hfeas
+  exact spectrumSelection_last t hwf m hm n hsp n' hlt (feasible_rangeOK s hs _ t ha n' m hfeas)
 
 theorem forall₂_mem_right {α β : Type} {R : α → β → Prop} {l1 : List α} {l2 : List β} (h : List.Forall₂ R l1 l2)
     (b : β) (hb : b ∈ l2) : ∃ a ∈ l1, R a b := by
